@@ -88,6 +88,27 @@ BedSame(p, q) ==
 BedRoundTrip(p, w) ==
     p.ok = 1 /\ p.chrom = w.chrom /\ p.start = w.start /\ p.end = w.end /\ p.aux = w.aux
 
+\* ---- the Record API (values, not files): every accessor of a record that was built through
+\* setters (called twice: last wins), push_aux (order), clone / clone_from / serde round trip /
+\* Default must show the intended record w
+OptIs(o, present, v) == IF present THEN o.some = 1 /\ o.v = v ELSE o.some = 0
+BedAccessors(r, w) ==
+    /\ r.chrom = w.chrom /\ r.start = w.start /\ r.end = w.end /\ r.aux = w.aux
+    /\ OptIs(r.name, Len(w.aux) >= 1, IF Len(w.aux) >= 1 THEN w.aux[1] ELSE << >>)
+    /\ OptIs(r.score, Len(w.aux) >= 2, IF Len(w.aux) >= 2 THEN w.aux[2] ELSE << >>)
+    /\ r.strand = (IF Len(w.aux) >= 3 /\ w.aux[3] = <<43>> THEN 1 ELSE IF Len(w.aux) >= 3 /\ w.aux[3] = <<45>> THEN -1 ELSE 0)
+    /\ r.eq_rebuilt = 1
+\* gff: score() is the number if the score token is one, strand() only knows + and -
+GffAccessors(r, w) ==
+    /\ r.seqname = w.seqname /\ r.source = w.source /\ r.ftype = w.ftype /\ r.start = w.start /\ r.end = w.end
+    /\ r.rawscore = w.score /\ r.rawstrand = w.strand /\ r.phase = w.phase
+    /\ OptIs(r.score, w.score # <<DOT>> /\ IsU64(w.score), IF IsU64(w.score) THEN Canon(w.score) ELSE << >>)
+    /\ r.strand = (IF w.strand = <<43>> THEN 1 ELSE IF w.strand = <<45>> THEN -1 ELSE 0)
+    /\ SameMultimap(r.attrs, Flatten(w.attrs))
+    /\ \A i \in 1..Len(w.attrs) :            \* get(key) is the FIRST value of the key
+          \E j \in 1..Len(r.first) : r.first[j][1] = w.attrs[i][1] /\ r.first[j][2] = w.attrs[i][2][1]
+    /\ r.eq_rebuilt = 1
+
 \* latest earlier write_file to this path (0 = none)
 PrevWriteFile(evs, k, pid) ==
     LET c == {j \in 1..(k - 1) : evs[j].c.op = "write_file" /\ evs[j].c.a.pid = pid}
@@ -113,6 +134,22 @@ Explains(fam, cfg, evs, k) ==
            /\ c.a.q \in {0, 1}
            /\ IF fam = "gff" THEN \A i \in 1..Len(c.a.recs) : ValidGffRec(dl, c.a.recs[i], c.a.q)
                               ELSE \A i \in 1..Len(c.a.recs) : ValidBedRec(c.a.recs[i], c.a.q)
+      [] c.op = "accessors" ->
+           /\ r.st = "ok"
+           /\ IF fam = "gff" THEN GffAccessors(r, c.a.rec) ELSE BedAccessors(r, c.a.rec)
+      [] c.op = "read_via" ->          \* records() consumed through count / last / nth(j) / skip(j)
+           LET w == PrevWrite(evs, k, c.a.bytes)
+               recs == evs[w].c.a.recs
+               n == Len(recs)
+               Same(p, x) == IF fam = "gff" THEN GffRoundTrip(p, x) ELSE BedRoundTrip(p, x)
+           IN  /\ r.st = "ok" /\ w # 0 /\ c.a.j >= 0
+               /\ CASE c.a.via = "count" -> r.n = n
+                    [] c.a.via = "last"  -> IF n = 0 THEN r.n = 0 ELSE r.n = 1 /\ Len(r.recs) = 1 /\ Same(r.recs[1], recs[n])
+                    [] c.a.via = "nth"   -> IF c.a.j >= n THEN r.n = 0
+                                            ELSE r.n = 1 /\ Len(r.recs) = 1 /\ Same(r.recs[1], recs[c.a.j + 1])
+                    [] c.a.via = "skip"  -> /\ r.n = (IF c.a.j >= n THEN 0 ELSE n - c.a.j) /\ Len(r.recs) = r.n
+                                            /\ \A i \in 1..Len(r.recs) : Same(r.recs[i], recs[c.a.j + i])
+                    [] OTHER -> FALSE
       [] c.op = "read_file" ->
            LET w == PrevWriteFile(evs, k, c.a.pid) IN
            /\ r.st = "ok" /\ r.open = 1
